@@ -208,7 +208,7 @@ def fanout(fn, tasks, nproc=None, task_wall=600, total_wall=None, stop_when=None
     return [(tasks[i], results[i]) for i in sorted(results)], time.time() - t0
 
 
-def fanout_isolated(modname, funcname, tasks, nproc=None, task_wall=1800, stop_when=None):
+def fanout_isolated(modname, funcname, tasks, nproc=None, task_wall=1800, stop_when=None, env=None):
     """Like fanout, but every task runs in its own fresh interpreter (subprocess), so that code under
     test which crashes the process (heap corruption in a broken C routine) takes down one task only.
     A task that dies yields {"crashed": returncode, "stderr": tail}.  Results in task order."""
@@ -231,8 +231,12 @@ def fanout_isolated(modname, funcname, tasks, nproc=None, task_wall=1800, stop_w
         with open(argf, "wb") as f:
             pickle.dump(tasks[i], f)
         try:
+            cenv = None
+            if env:
+                cenv = dict(os.environ)
+                cenv.update(env)
             p = subprocess.run([sys.executable, "-u", main_py, "--worker", modname, funcname, argf, out],
-                               stdout=subprocess.PIPE, stderr=subprocess.STDOUT, timeout=task_wall)
+                               stdout=subprocess.PIPE, stderr=subprocess.STDOUT, timeout=task_wall, env=cenv)
             rc, tail = p.returncode, p.stdout.decode(errors="replace")[-3000:]
         except subprocess.TimeoutExpired:
             rc, tail = -999, "task wall-clock limit (%s s) exceeded" % task_wall
